@@ -5,6 +5,8 @@ import sys
 import time
 
 VERIF = os.path.dirname(os.path.dirname(os.path.abspath(__file__)))
+# self-tests and seeded-change runs analyse a scratch tree (TETL_REPO) and must not overwrite the evidence of /repo
+OUT = os.environ.get("TETL_VERIF_OUT", VERIF)
 KNOWN = os.path.join(VERIF, "known_findings.json")
 
 
@@ -53,7 +55,7 @@ class Check:
             with open(replay) as f:
                 r = json.load(f)
             self.replay_filter = (r.get("rule"), r.get("construct"))
-        self.report_dir = os.path.join(VERIF, "reports", prop)
+        self.report_dir = os.path.join(OUT, "reports", prop)
         self._nrep = 0
         self.assumptions = []
         self.extra = {}
@@ -104,7 +106,7 @@ class Check:
     # ---- finish ------------------------------------------------------------------------------------
     def finish(self, explanation, trusted_base, checker_cmd, exhaustive=False, rule_text=""):
         wall = time.time() - self.t0
-        os.makedirs(os.path.join(VERIF, "evidence"), exist_ok=True)
+        os.makedirs(os.path.join(OUT, "evidence"), exist_ok=True)
         # report files
         paths = []
         if not self.replay and os.path.isdir(self.report_dir):
@@ -151,7 +153,7 @@ class Check:
         if self.broken:
             ev["coverage"]["analysis_broken"] = self.broken
         if not self.replay:
-            with open(os.path.join(VERIF, "evidence", self.prop + ".json"), "w") as f:
+            with open(os.path.join(OUT, "evidence", self.prop + ".json"), "w") as f:
                 json.dump(ev, f, indent=1, default=str)
         # console
         print("[%s] tier=%s obligations=%d discharged=%d unknown=%d instances=%s wall=%.1fs" % (
